@@ -17,7 +17,7 @@ pub mod ipose {
 
     #[derive(Clone, Debug)]
     pub enum Ev {
-        Ptrace { req: u32, pid: i32, addr: u64, data: u64, ret: i64, errno: i32 },
+        Ptrace { req: u32, pid: i32, addr: u64, data: u64, ret: i64, errno: i32, rip: u64 },
         Wait { arg: i32, ret: i32, status: i32 },
     }
     pub static ENABLED: AtomicBool = AtomicBool::new(false);
@@ -39,7 +39,7 @@ pub mod ipose {
                 if left == 1 {
                     *libc::__errno_location() = libc::EIO;
                     if ENABLED.load(Ordering::Relaxed) {
-                        LOG.lock().unwrap().push(Ev::Ptrace { req, pid, addr: addr as u64, data: data as u64, ret: -1, errno: libc::EIO });
+                        LOG.lock().unwrap().push(Ev::Ptrace { req, pid, addr: addr as u64, data: data as u64, ret: -1, errno: libc::EIO, rip: 0 });
                     }
                     return -1;
                 }
@@ -48,7 +48,11 @@ pub mod ipose {
             let ret = f(req, pid, addr, data);
             let errno = *libc::__errno_location();
             if ENABLED.load(Ordering::Relaxed) {
-                LOG.lock().unwrap().push(Ev::Ptrace { req, pid, addr: addr as u64, data: data as u64, ret: ret as i64, errno });
+                // for GETREGS/SETREGS keep the program counter that was read / written
+                let rip = if (req == libc::PTRACE_GETREGS || req == libc::PTRACE_SETREGS) && ret == 0 && !data.is_null() {
+                    (*(data as *const libc::user_regs_struct)).rip
+                } else { 0 };
+                LOG.lock().unwrap().push(Ev::Ptrace { req, pid, addr: addr as u64, data: data as u64, ret: ret as i64, errno, rip });
                 *libc::__errno_location() = errno;
             }
             ret
@@ -170,6 +174,11 @@ pub fn run_sessions<S: Sync>(sessions: &[S], tmpdir: &Path, tag: &str, par: usiz
     results.into_iter().map(|r| r.unwrap()).collect()
 }
 
+/// seconds a single debugger session may take before its worker is killed (normal sessions take 1-3 s)
+pub fn session_timeout() -> u64 {
+    std::env::var("VERIF_SESSION_TIMEOUT").ok().and_then(|v| v.parse().ok()).unwrap_or(25)
+}
+
 pub fn par_default() -> usize {
     std::env::var("VERIF_PAR").ok().and_then(|v| v.parse().ok()).unwrap_or(8)
 }
@@ -182,7 +191,7 @@ pub fn verif_root() -> PathBuf {
 }
 
 #[derive(Clone, Debug)]
-pub struct Step { pub pc: u64, pub depth: u32, pub rsp: u64 }
+pub struct Step { pub pc: u64, pub depth: u32, pub rsp: u64, pub gap: u64, pub chain: std::rc::Rc<Vec<u64>> }
 
 /// A compiled debuggee with its independent ground truth.
 pub struct Prog {
@@ -205,14 +214,27 @@ impl Prog {
         let tr = std::fs::read_to_string(format!("{}.trace", path.display()))
             .unwrap_or_else(|_| panic!("no reference trace for {name}: run tools/build_progs.sh"));
         let mut base = 0; let mut exit_code = 0; let mut trace = vec![];
+        // shadow stack of absolute return addresses, outermost first; shared between steps while unchanged
+        let mut shadow: Vec<u64> = vec![];
+        let mut chain = std::rc::Rc::new(Vec::<u64>::new());
         for l in tr.lines() {
             if let Some(r) = l.strip_prefix("# base ") { base = u64::from_str_radix(r, 16).unwrap(); }
             else if let Some(r) = l.strip_prefix("# exit ") { exit_code = r.parse().unwrap(); }
             else if l.starts_with('#') { }
+            else if let Some(r) = l.strip_prefix("+ ") {
+                shadow.push(u64::from_str_radix(r.split(' ').next().unwrap(), 16).unwrap());
+                chain = std::rc::Rc::new(shadow.clone());
+            }
+            else if let Some(r) = l.strip_prefix("- ") {
+                let n: usize = r.parse().unwrap();
+                shadow.truncate(shadow.len().saturating_sub(n));
+                chain = std::rc::Rc::new(shadow.clone());
+            }
             else {
                 let mut it = l.split(' ');
                 trace.push(Step { pc: u64::from_str_radix(it.next().unwrap(), 16).unwrap(), depth: it.next().unwrap().parse().unwrap(),
-                                  rsp: u64::from_str_radix(it.next().unwrap(), 16).unwrap() });
+                                  rsp: u64::from_str_radix(it.next().unwrap(), 16).unwrap(),
+                                  gap: it.next().map(|g| g.parse().unwrap()).unwrap_or(0), chain: chain.clone() });
             }
         }
         let file = std::fs::read(&path).unwrap();
